@@ -980,9 +980,52 @@ func checkRefreshAsksRandomSeed(c *Ctx, rule string) {
 		})
 		return ok && n > 0
 	}
+	shuffles := func(fn *ssa.Function) bool {
+		has := false
+		for _, g := range withAnon(fn) {
+			eachInstr(g, func(_ *ssa.BasicBlock, _ int, in ssa.Instruction) {
+				if isCallTo(in, "math/rand.Shuffle", "math/rand.Perm", "(*math/rand.Rand).Shuffle", "(*math/rand.Rand).Perm") {
+					has = true
+				}
+			})
+		}
+		return has
+	}
+	var judge func(v ssa.Value, fn *ssa.Function, depth int) bool
+	judge = func(v ssa.Value, fn *ssa.Function, depth int) bool {
+		if fromRandom(v, 0) {
+			return true
+		}
+		// the hosts tried one after the other in a freshly shuffled order
+		if shuffles(fn) {
+			if _, isC := stripConv(resolveCell(v)).(*ssa.Const); !isC {
+				return true
+			}
+		}
+		if prm, isPrm := stripConv(resolveCell(v)).(*ssa.Parameter); isPrm && depth < 2 {
+			idx := paramIndex(fn, prm)
+			edges := p.callersOf(fn)
+			nn := 0
+			for _, ed := range edges {
+				if p.isTestFn(ed.Caller.Func) {
+					continue
+				}
+				args := ed.Site.Common().Args
+				if idx < 0 || idx >= len(args) || ed.Site.Common().IsInvoke() {
+					return false
+				}
+				nn++
+				if !judge(args[idx], ed.Caller.Func, depth+1) {
+					return false
+				}
+			}
+			return nn > 0
+		}
+		return false
+	}
 	n := 0
 	for _, fn := range append([]*ssa.Function{doRefresh}, staticCalleesDeep(doRefresh, 1)...) {
-		if fn.Blocks == nil || !isModFn(fn) || fn == mrth {
+		if fn.Blocks == nil || !isModFn(fn) || fn == mrth || fn.Pkg != doRefresh.Pkg {
 			continue
 		}
 		eachInstr(fn, func(_ *ssa.BasicBlock, _ int, in ssa.Instruction) {
@@ -990,11 +1033,12 @@ func checkRefreshAsksRandomSeed(c *Ctx, rule string) {
 			if !ok || !isCallToFn(call, mrth) || len(call.Call.Args) < 2 {
 				return
 			}
-			if fn != doRefresh {
+			// (the redirect callbacks also send; they are not part of a refresh round)
+			if fn != doRefresh && fn.Signature.Params().Len() > 1 && fn.Signature.Results().Len() == 0 {
 				return
 			}
 			n++
-			c.Check(fromRandom(call.Call.Args[1], 0), rule, fmt.Sprintf("%s asks a randomly drawn host#%d", fnKey(fn), n), call.Pos(), "the address of the CLUSTER NODES request comes from host.Set.Random", "the node that is asked for the cluster layout is not (only) drawn at random from the host set: a source that prefers one host - e.g. one the proxy is already connected to - asks the same seed in every round, and while that seed answers with an error or a stale view the routing table never converges although another seed would report the right layout")
+			c.Check(judge(call.Call.Args[1], fn, 0), rule, fmt.Sprintf("%s asks a randomly drawn host#%d", fnKey(fn), n), call.Pos(), "the address of the CLUSTER NODES request comes from host.Set.Random", "the node that is asked for the cluster layout is not (only) drawn at random from the host set: a source that prefers one host - e.g. one the proxy is already connected to - asks the same seed in every round, and while that seed answers with an error or a stale view the routing table never converges although another seed would report the right layout")
 		})
 	}
 	if n == 0 {
